@@ -158,29 +158,29 @@ theorem batch_one_bad_fails_ec (K : CurveOk p C) (h34 : p % 4 = 3) (prm : Params
 
 end
 
-/-! ## secp256k1: primality of `p` and `n` are the only assumptions -/
+/-! ## secp256k1: no assumption (primality of `p`, `n`: `secp256k1_p_prime`, `secp256k1_n_prime`, Pratt certificates) -/
 
-theorem sign_verifies_secp256k1 (hp : Nat.Prime secp256k1_p) (hn : Nat.Prime secp256k1_n) (prm : Params)
+theorem sign_verifies_secp256k1 (prm : Params)
     (fuel : ℕ) (msg : Bytes) (q : ℤ) (aux : Bytes) (sg : Sig)
     (h : sign (EC.ops secp256k1) prm fuel msg q aux = .ok sg) :
     Schnorr.verify (EC.ops secp256k1) prm msg ((EC.ops secp256k1).x ((EC.ops secp256k1).mul q secp256k1.G)) sg = true :=
-  @sign_verifies_ec secp256k1_p ⟨hp⟩ secp256k1 (secpOk hp hn) secp256k1_h34 prm fuel msg q aux sg h
+  @sign_verifies_ec secp256k1_p ⟨secp256k1_p_prime⟩ secp256k1 secpOk secp256k1_h34 prm fuel msg q aux sg h
 
-theorem sign_secpOps (hp : Nat.Prime secp256k1_p) (hn : Nat.Prime secp256k1_n) (prm : Params)
+theorem sign_secpOps (prm : Params)
     (fuel : ℕ) (msg : Bytes) (q : ℤ) (aux : Bytes) :
-    sign (secpOps hp hn) prm fuel msg q aux = sign (EC.ops secp256k1) prm fuel msg q aux :=
-  @sign_opsSub secp256k1_p ⟨hp⟩ secp256k1 (secpOk hp hn) secp256k1_h34 prm fuel msg q aux
+    sign secpOps prm fuel msg q aux = sign (EC.ops secp256k1) prm fuel msg q aux :=
+  @sign_opsSub secp256k1_p ⟨secp256k1_p_prime⟩ secp256k1 secpOk secp256k1_h34 prm fuel msg q aux
 
-theorem verify_secpOps_imp (hp : Nat.Prime secp256k1_p) (hn : Nat.Prime secp256k1_n) (prm : Params)
-    (msg : Bytes) (xQ : ℤ) (sg : Sig) (h : Schnorr.verify (secpOps hp hn) prm msg xQ sg = true) :
+theorem verify_secpOps_imp (prm : Params)
+    (msg : Bytes) (xQ : ℤ) (sg : Sig) (h : Schnorr.verify secpOps prm msg xQ sg = true) :
     Schnorr.verify (EC.ops secp256k1) prm msg xQ sg = true :=
-  @verify_opsSub_imp secp256k1_p ⟨hp⟩ secp256k1 (secpOk hp hn) prm msg xQ sg h
+  @verify_opsSub_imp secp256k1_p ⟨secp256k1_p_prime⟩ secp256k1 secpOk prm msg xQ sg h
 
-theorem verify_iff_secp256k1 (hp : Nat.Prime secp256k1_p) (hn : Nat.Prime secp256k1_n) (prm : Params)
+theorem verify_iff_secp256k1 (prm : Params)
     (msg : Bytes) (xQ : ℤ) (sg : Sig) :
-    Schnorr.verify (secpOps hp hn) prm msg xQ sg = true ↔
+    Schnorr.verify secpOps prm msg xQ sg = true ↔
       0 ≤ sg.r ∧ sg.r < secp256k1.p ∧ 0 ≤ sg.s ∧ sg.s < secp256k1.n ∧
-      ∃ Q, (secpOps hp hn).liftX xQ = some Q ∧
+      ∃ Q, secpOps.liftX xQ = some Q ∧
         challengeInt (EC.ops secp256k1) prm msg xQ sg.r ≠ 0 ∧
         (EC.ops secp256k1).isZero ((EC.ops secp256k1).sub ((EC.ops secp256k1).mul sg.s secp256k1.G)
           ((EC.ops secp256k1).mul (challengeInt (EC.ops secp256k1) prm msg xQ sg.r) Q.1)) = false ∧
@@ -188,23 +188,23 @@ theorem verify_iff_secp256k1 (hp : Nat.Prime secp256k1_p) (hn : Nat.Prime secp25
           ((EC.ops secp256k1).mul (challengeInt (EC.ops secp256k1) prm msg xQ sg.r) Q.1)) = true ∧
         (EC.ops secp256k1).x ((EC.ops secp256k1).sub ((EC.ops secp256k1).mul sg.s secp256k1.G)
           ((EC.ops secp256k1).mul (challengeInt (EC.ops secp256k1) prm msg xQ sg.r) Q.1)) = sg.r :=
-  @verify_iff_ec secp256k1_p ⟨hp⟩ secp256k1 (secpOk hp hn) secp256k1_h34 prm msg xQ sg
+  @verify_iff_ec secp256k1_p ⟨secp256k1_p_prime⟩ secp256k1 secpOk secp256k1_h34 prm msg xQ sg
 
-theorem batch_complete_secp256k1 (hp : Nat.Prime secp256k1_p) (hn : Nat.Prime secp256k1_n) (prm : Params)
+theorem batch_complete_secp256k1 (prm : Params)
     (coef : ℕ → ℤ) (items : List Item) (hne : items ≠ [])
-    (hall : ∀ it ∈ items, Schnorr.verify (secpOps hp hn) prm it.msg it.xQ it.sg = true) :
-    batchVerify (secpOps hp hn) prm coef items = true :=
-  @batch_complete_ec secp256k1_p ⟨hp⟩ secp256k1 (secpOk hp hn) secp256k1_h34 prm coef items hne hall
+    (hall : ∀ it ∈ items, Schnorr.verify secpOps prm it.msg it.xQ it.sg = true) :
+    batchVerify secpOps prm coef items = true :=
+  @batch_complete_ec secp256k1_p ⟨secp256k1_p_prime⟩ secp256k1 secpOk secp256k1_h34 prm coef items hne hall
 
-theorem batch_one_bad_fails_secp256k1 (hp : Nat.Prime secp256k1_p) (hn : Nat.Prime secp256k1_n) (prm : Params)
+theorem batch_one_bad_fails_secp256k1 (prm : Params)
     (coef : ℕ → ℤ) (it0 it1 : Item) (rest : List Item) (j : ℕ) (bad : Item)
     (hj : (it0 :: it1 :: rest)[j]? = some bad)
-    (hbad : Schnorr.verify (secpOps hp hn) prm bad.msg bad.xQ bad.sg = false)
+    (hbad : Schnorr.verify secpOps prm bad.msg bad.xQ bad.sg = false)
     (hothers : ∀ k it', (it0 :: it1 :: rest)[k]? = some it' → k ≠ j →
-      Schnorr.verify (secpOps hp hn) prm it'.msg it'.xQ it'.sg = true)
+      Schnorr.verify secpOps prm it'.msg it'.xQ it'.sg = true)
     (hcoef : ¬ secp256k1.n ∣ coefAt coef j) :
-    batchVerify (secpOps hp hn) prm coef (it0 :: it1 :: rest) = false :=
-  @batch_one_bad_fails_ec secp256k1_p ⟨hp⟩ secp256k1 (secpOk hp hn) secp256k1_h34 prm coef it0 it1 rest j bad hj
+    batchVerify secpOps prm coef (it0 :: it1 :: rest) = false :=
+  @batch_one_bad_fails_ec secp256k1_p ⟨secp256k1_p_prime⟩ secp256k1 secpOk secp256k1_h34 prm coef it0 it1 rest j bad hj
     hbad hothers hcoef
 
 /-! ## the toy curve: actual runs, no hypothesis at all -/
